@@ -111,7 +111,8 @@ class _CachedParser:
     std="f2008") once per generated PSyData call (about 15 per region, 10 ms
     each). create() rebuilds fparser's class tables from scratch, so a
     repeated call with the std of the previous call is a no-op: inside this
-    context such calls return the previous result."""
+    context (the region loop of one program) such calls return the previous
+    result; the first call inside the context is always a real one."""
     last = [None, None]      # std of the latest real call, its result
 
     def __enter__(self):
@@ -158,8 +159,7 @@ def extract_lists(tree, subname, key):
     enodes = [nd for nd in sched.children if isinstance(nd, ExtractNode)]
     if len(enodes) != 1:
         raise HarnessError("ExtractTrans did not insert one ExtractNode")
-    with _CachedParser():
-        enodes[0].lower_to_language_level()
+    enodes[0].lower_to_language_level()
     ins, outs = set(), set()
     phase = "pre"
     seen_start = False
@@ -283,12 +283,22 @@ def _case_facts(case):
     if case.get("oracle") not in ("trace-in", "replay") or \
             not case.get("var"):
         return None, False
-    psy.reset_state()
-    tree = psy.read(case["module"])
-    rout = psy.routine_of(tree, "s" + case["uid"])
-    nodes = region_nodes(rout, tuple(case["region"]))
-    return (first_access(nodes, case["var"]),
-            is_array_var(rout, case["var"]))
+    # the classifiers are evaluated for every failing (region, oracle,
+    # source, variable): parse a module once, compute the facts once
+    if _FACTS["module"] != case["module"]:
+        _FACTS["module"] = case["module"]
+        _FACTS["tree"] = psy.read(case["module"])
+        _FACTS["facts"] = {}
+    fkey = (case["uid"], tuple(case["region"]), case["var"])
+    if fkey not in _FACTS["facts"]:
+        rout = psy.routine_of(_FACTS["tree"], "s" + case["uid"])
+        nodes = region_nodes(rout, tuple(case["region"]))
+        _FACTS["facts"][fkey] = (first_access(nodes, case["var"]),
+                                 is_array_var(rout, case["var"]))
+    return _FACTS["facts"][fkey]
+
+
+_FACTS = {"module": None, "tree": None, "facts": {}}
 
 
 def cls_array_write_first(case):
@@ -499,7 +509,7 @@ def region_text(nodes):
 def analyse(prog, src, only=None):
     """Analyse every region (or only the region with key `only`) of the
     routine under test."""
-    from psyclone.psyir.nodes import Call, IntrinsicCall, Loop, Schedule
+    from psyclone.psyir.nodes import Schedule
     ana = Analysis()
     psy.reset_state()
     tree = psy.read(src)
@@ -509,6 +519,13 @@ def analyse(prog, src, only=None):
         ana.discard("program:no_valid_input")
         return ana
     scheds = rout.walk(Schedule)
+    with _CachedParser():
+        _analyse_regions(ana, prog, src, tree, scheds, good, only)
+    return ana
+
+
+def _analyse_regions(ana, prog, src, tree, scheds, good, only):
+    from psyclone.psyir.nodes import Call, IntrinsicCall, Loop
     for sidx, sched in enumerate(scheds):
         nkids = len(sched.children)
         for first in range(nkids):
@@ -602,4 +619,3 @@ def analyse(prog, src, only=None):
                          res.extract[1] != res.ctu[1]):
                     labs.append("extract_lists_differ_from_ctu")
                 ana.regions.append(res)
-    return ana
